@@ -94,6 +94,18 @@ def check_consume(ctx, fx, cfg, floor, RULE="R18.1"):
                         how.add("returned-in-%s" % (x.get("def") or x.get("ak")))
                     elif x["k"] == "ret":
                         how.add("ret")
+                    elif x["k"] == "call" and x["t"].get("trait") and x["t"].get("callee_local") and not x["t"].get("resolved"):
+                        # handed to a method of a crate-local trait chosen by a type parameter (`T::finish(addr, handle)` with
+                        # `Detached` / `Owning` implementing it): every implementation must dispose of it properly
+                        meth = (x["t"].get("callee") or "").split("::")[-1]
+                        impls = [h_ for h_ in fx.d["fns"] if h_.get("impl_trait_def") == x["t"]["trait"] and h_["def"].endswith("::" + meth) and h_["kind"] == "assoc_fn"]
+                        good_ = bool(impls)
+                        for h_ in impls:
+                            hs_ = sinks(ctx.body(fx, h_), x["idx"] + 1)
+                            if not any((y["k"] == "call" and (y["t"].get("callee") or "") in ("actor::spawner::actor_handle::ActorHandle::<A>::detach", "addr::OwningAddr::<A>::new")) or y["k"] in ("agg", "ret") for y in hs_):
+                                good_ = False
+                        if good_:
+                            how.add("via-impls-of-%s::%s" % (x["t"]["trait"].split("::")[-1], meth))
                 ctx.require(bool(how), RULE, "consumed:%s@%s" % (s, cfg), "the handle returned by spawn_actor is neither detached nor handed to the caller", fn=s, site=t["l"], detail=sorted(how))
                 if how and how <= {"ret"} | {h for h in how if h.startswith("returned-in-")}:
                     # a shared helper that hands the handle to its caller (`env.launch::<S>(actor)`): its callers are the
@@ -174,17 +186,35 @@ def check_runtime(ctx, fx, cfg):
 
             def step(self, st, label):
                 ev = label.split("@")[0]
-                if ev == "sw:Option::Some":
+                if ev == "sw:Option::Some" or (ev.startswith("sw:") and ev[3:] in FN_VARIANTS):
                     return ("some",)
                 if ev == "call:invoke":
                     return ("invoked",)
                 if ev == "ret" and st[0] == "some":
                     return nfa.Err("a registered detach function is not invoked")
                 return st
-        n = nfa.build(b, A)
+        # the stored function may live in a crate-local enum instead of an Option (`OnDetach::Call(Box<dyn FnOnce()>)`), and the
+        # match on it in a small method of that enum (`on_detach.run()`)
+        FN_VARIANTS = set()
+        for adt_, a_ in fx.adts.items():
+            if adt_.split("::")[0] in ("core", "std", "alloc") or len(a_.get("variants", [])) < 2:
+                continue
+            for v_ in a_["variants"]:
+                if any("dyn core::ops::function::FnOnce<()>" in fl_["ty"] for fl_ in v_["fields"]):
+                    FN_VARIANTS.add("%s::%s" % (adt_.split("::")[-1], v_["name"]))
+        A.adt_fn = lambda adt: adt.split("::")[-1] if (adt in fx.adts and adt.split("::")[0] not in ("core", "std", "alloc")) else None
+        n = nfa.build(b, A, fx, depth=2)
         viols, ps = nfa.check(n, Inv())
         ctx.count_nfa(n.stats(), ps)
         inv = len(nfa.edges_labelled(n, "call:invoke"))
+        # ... and nothing else does: the registered function takes the runtime handle out of the shared slot a pending join
+        # reads — run from `Drop` (or anywhere but the consuming `detach(self)`) it makes a join started earlier yield nothing
+        is_inv = A.calls[0][1]
+        owners_ = {d["def"]}
+        helpers_ = graph.private_helpers(fx, owners_)
+        for g_, _bi, t_ in graph.all_calls(fx, is_inv):
+            r_ = g_.get("root", g_["def"])
+            ctx.require(r_ in owners_ or r_ in helpers_, "R18.2", "detach-fn-invoked-only-by-detach:%s@%s" % (r_, cfg), "the registered detach function is invoked outside ActorHandle::detach(self) (from %s, used by %s)" % (r_, sorted(graph.caller_roots(fx).get(r_, set()) - owners_)[:3]), fn=g_["def"], site=t_["l"])
         ctx.require(not viols and inv == 1, "R18.2", "ActorHandle::detach@" + cfg, "ActorHandle::detach must invoke the registered detach function: %s" % [v["msg"] for v in viols], fn=d["def"], site=d["loc"])
     wd = fx.fn("actor::spawner::actor_handle::ActorHandle::<A>::with_detach_fn")
     if ctx.require(wd is not None, "R18.2", "with_detach_fn@" + cfg, "ActorHandle::with_detach_fn not found"):
